@@ -1,8 +1,37 @@
 """Helpers shared by the storage checks C01, C04, C29: op-line field specs, the canonical digests
 (the same CRC-32 serialisation the Go harness and the Lean driver print) and the independent Spec
 oracle for write histories (a plain Python dict — it never looks at the model's replies)."""
+import json
+import os
 import struct
+import subprocess
+import tempfile
 import zlib
+
+
+def all_storage_facts():
+    """Facts of all three storage properties (the Lean model has ONE Cfg): the driver of each check
+    is given every fact, so that e.g. C01's model reader has the same checks as the real reader."""
+    from . import common as K
+    out = {}
+    with tempfile.TemporaryDirectory() as d:
+        p = subprocess.run([os.path.join(K.BIN, "extract"), "-repo", K.REPO, "-out", d, "C01", "C04", "C29"],
+                           stdout=subprocess.PIPE, stderr=subprocess.STDOUT, text=True)
+        for line in p.stdout.splitlines():
+            if line.startswith("FACTS "):
+                for k, v in json.loads(line.split(" ", 2)[2]).items():
+                    out[k] = v["value"]
+    return out
+
+
+DRV_FACT_NAMES = ["rejectsEmptyKey", "rejectsLongKey", "flushCmp", "flushAtCount", "deleteRemoves", "validatesCrc", "validatesULen",
+                  "boundsCompressedSize", "boundsDecodedLen", "parseConsumesAll", "v2Fallback", "rejectsLongName"]
+
+
+def drv_args(own_facts):
+    allf = all_storage_facts()
+    allf.update(own_facts)
+    return ["%s=%s" % (k, allf.get(k, "unknown")) for k in DRV_FACT_NAMES]
 
 
 def unhex(s):
